@@ -1,16 +1,39 @@
 #!/usr/bin/env python3
-"""Print the markdown table of seeded changes (seeded/<ID>/<n>/meta.json + seeded/NOTES.json) for DESIGN.md section 10."""
-import json, glob, os, re
+"""Print the counts and the markdown table of seeded changes (seeded/<ID>/<n>/meta.json + seeded/NOTES.json) for DESIGN.md section 10.
+
+history categories (from seeded/NOTES.json, keyed <ID>/<n>):
+  no note                        -> caught by the check as it stood when the change arrived
+  note starting 'not pursued'    -> outside the property's domain; not caught, reason given
+  any other note                 -> missed / mis-reported at first, caught after the strengthening the note describes
+A change whose own check stays quiet but that meta.json records as `also_caught_by` a neighbouring check counts as cross-property.
+"""
+import json, glob, os, re, sys
 H = os.path.dirname(os.path.dirname(os.path.abspath(__file__)))
 notes = json.load(open(f"{H}/seeded/NOTES.json"))
-rows = []
+rows, tally = [], {"asis": 0, "strengthened": 0, "cross": 0, "notpursued": 0, "MISSED": 0}
 for p in sorted(glob.glob(f"{H}/seeded/*/*/meta.json"), key=lambda p: (p.split('/')[-3], int(p.split('/')[-2]))):
     pid, n = p.split('/')[-3], p.split('/')[-2]
     m = json.load(open(p)); v = m["verified"]
     subs = sorted({re.match(r"\[(C\d+\.\w+)\]", l).group(1) for l in v.get("check_output", []) if re.match(r"\[(C\d+\.\w+)\]", l)})
-    caught = "caught: " + ", ".join(subs) if v.get("check_rc") == 1 else ("harness error" if v.get("check_rc") == 2 else "MISSED")
+    note = notes.get(f"{pid}/{n}")
+    own = v.get("check_rc") == 1
     extra = v.get("also_caught_by")
-    if extra: caught += f"; also {extra}"
-    rows.append(f"| {pid}/{n} | {(m.get('summary') or '')[:230].replace('|','/')} | {(m.get('needs') or '')[:200].replace('|','/')} | {caught} | {notes.get(f'{pid}/{n}','caught by the first version of the check')} |")
-print("| seed | change | needs | quick tier of its property | history |\n|---|---|---|---|---|")
+    if own:
+        caught = ", ".join(subs) or "caught"
+        tally["strengthened" if note else "asis"] += 1
+    elif extra:
+        caught = "not by " + pid + "; " + extra.split(" (")[0]
+        tally["cross"] += 1
+    elif note and note.startswith("not pursued"):
+        caught = "not caught (outside the domain)"
+        tally["notpursued"] += 1
+    else:
+        caught = "MISSED" if v.get("check_rc") == 0 else f"check rc={v.get('check_rc')}"
+        tally["MISSED"] += 1
+    if own and extra: caught += "; also " + extra.split(" (")[0]
+    rows.append(f"| {pid}/{n} | {(m.get('summary') or '')[:170].replace('|','/')} | {caught} | {note or 'caught by the check as it stood'} |")
+print(f"<!-- {sum(tally.values())} changes: {tally} -->")
+print("| seed | change (author's summary, truncated) | quick tier: sub-checks reporting it | history |\n|---|---|---|---|")
 print("\n".join(rows))
+if tally["MISSED"]:
+    print("UNEXPLAINED MISSES PRESENT", file=sys.stderr)
